@@ -46,7 +46,8 @@ Definition late_ok (g : bool) (k : call) : bool :=
   end.
 Definition inv6 (s : state) : Prop :=
   forall c k, nth_error (calls s) c = Some k ->
-    exists late pre, call_info c (hist s) = Some (k_kind k, late, pre) /      (late = true -> existsb is_closed_ev (hist s) = true /\ late_ok (c_group (cfg s)) k = true).
+    exists late pre, call_info c (hist s) = Some (k_kind k, late, pre) /\
+      (late = true -> existsb is_closed_ev (hist s) = true /\ late_ok (c_group (cfg s)) k = true).
 
 Lemma reply_all_nth : forall cs ok s c k', nth_error (calls (reply_all cs ok s)) c = Some k' ->
   exists k, nth_error (calls s) c = Some k /\ k_kind k' = k_kind k /\ (k' = k \/ k_ph k = PCWait None).
